@@ -79,6 +79,12 @@ func c16Cases(c *h.Ctx) error {
 			var got string
 			p := h.Guard(func() { got = ldap.ParseSIDFromBytes(k.In) })
 			c.Exec(1)
+			if p == "" {
+				c.ReusedInput(c16SidSite, k.In, func(b []byte) (r string) {
+					h.Guard(func() { r = ldap.ParseSIDFromBytes(b) })
+					return r
+				}, h.Hex(k.In))
+			}
 			want, dec := c16Text(k.Txt), c16Text(k.Dec)
 			smp := map[string]interface{}{"sid_hex": h.Hex(k.In), "sub_authority_count": k.N, "spec_text": want}
 			if p != "" {
